@@ -65,10 +65,13 @@ Definition st_create_node (s : store) (labels : list str) (epoch : Z) : store * 
   let id := s_nn s in
   (mkStore (aset Z.eqb id (mkN epoch None (dedup labels)) (s_nodes s)) (s_nprops s) (s_edges s) (s_eprops s)
            (id + 1) (s_ne s) (s_epoch s), id).
+(** the largest identifier; [id_val.saturating_add(1)] (since commit 1b18953; [id + 1] before,
+    which overflowed — a panic in the overflow-checked profiles — on this identifier) *)
+Definition sat_succ (id : Z) : Z := if id =? id_max then id_max else id + 1.
 (** [create_node_with_id(id, labels)]: replaces whatever the node map holds for [id] *)
 Definition st_create_node_with_id (s : store) (id : Z) (labels : list str) : store :=
   mkStore (aset Z.eqb id (mkN (s_epoch s) None (dedup labels)) (s_nodes s)) (s_nprops s) (s_edges s) (s_eprops s)
-          (if s_nn s <=? id then id + 1 else s_nn s) (s_ne s) (s_epoch s).
+          (if s_nn s <=? id then sat_succ id else s_nn s) (s_ne s) (s_epoch s).
 (** [delete_node(id)] at the store's epoch: no cascade to edges; labels and properties go *)
 Definition st_delete_node (s : store) (id : Z) : store * bool :=
   match aget Z.eqb id (s_nodes s) with
@@ -116,7 +119,7 @@ Definition st_create_edge (s : store) (src dst : Z) (ty : str) (epoch : Z) : sto
            (s_nn s) (id + 1) (s_epoch s), id).
 Definition st_create_edge_with_id (s : store) (id src dst : Z) (ty : str) : store :=
   mkStore (s_nodes s) (s_nprops s) (aset Z.eqb id (mkE (s_epoch s) None src dst ty) (s_edges s)) (s_eprops s)
-          (s_nn s) (if s_ne s <=? id then id + 1 else s_ne s) (s_epoch s).
+          (s_nn s) (if s_ne s <=? id then sat_succ id else s_ne s) (s_epoch s).
 Definition st_delete_edge (s : store) (id : Z) : store * bool :=
   match aget Z.eqb id (s_edges s) with
   | Some e =>
@@ -276,9 +279,10 @@ Section Db.
   Definition db_step (cfg : wcfg) (st : dbstate) (o : op) : dbstate * out :=
     match o with
     | OCheckpoint =>
-        (* wal_checkpoint(): checkpoint(tx, store epoch); sync *)
+        (* wal_checkpoint(): TxCommit(tx) (since commit 14ec16a); checkpoint(tx, store epoch); sync *)
         let '(tx, t1) := last_or_begin (db_tm st) in
-        (mkDb (db_store st) t1 (wsync (wcheckpoint crc enc cfg (db_w st) tx (s_epoch (db_store st)))), OutUnit)
+        let w1 := wlog crc enc cfg (db_w st) (TxCommit tx) in
+        (mkDb (db_store st) t1 (wsync (wcheckpoint crc enc cfg w1 tx (s_epoch (db_store st)))), OutUnit)
     | ORotate => (mkDb (db_store st) (db_tm st) (wrotate (db_w st)), OutUnit)
     | OSync => (mkDb (db_store st) (db_tm st) (wsync (db_w st)), OutUnit)
     | _ =>
@@ -297,9 +301,10 @@ Section Db.
   Definition db_open (d : disk) : rres dbstate :=
     match recover crc dec d with
     | RErr => RErr
-    | ROk rs => ROk (mkDb (apply_all empty_store rs) tm0 (wopen d))
+    | ROk rs => ROk (mkDb (apply_all empty_store rs) tm0 (wopen crc d))
     end.
-  Definition db_fresh : dbstate := mkDb empty_store tm0 (wopen empty_disk).
+  (** a fresh directory: [wopen] of the empty directory (one empty log file number 0) *)
+  Definition db_fresh : dbstate := mkDb empty_store tm0 (mkW (mkDisk [(0, empty_file)] MetaAbsent false) 0 0 None).
 
   (** * Histories: sessions of operations, each ended by a clean close or by a crash *)
   Inductive sess_end :=
@@ -334,6 +339,40 @@ Section Db.
         | RErr => ([mkObs outs (db_store st1) d RErr], RErr)
         | ROk st2 =>
             let '(obs, fin) := run_sessions cfg st2 r in
+            (mkObs outs (db_store st1) d (ROk (db_store st2)) :: obs, fin)
+        end
+    end.
+
+  (** * The code before the repairs 14ec16a (wal_checkpoint wrote no commit marker) and 3ca6f5b
+      (a torn tail was appended to): kept for the [_pre_refuted] theorems *)
+  Definition db_step_pre (cfg : wcfg) (st : dbstate) (o : op) : dbstate * out :=
+    match o with
+    | OCheckpoint =>
+        let '(tx, t1) := last_or_begin (db_tm st) in
+        (mkDb (db_store st) t1 (wsync (wcheckpoint crc enc cfg (db_w st) tx (s_epoch (db_store st)))), OutUnit)
+    | _ => db_step cfg st o
+    end.
+  Definition db_open_pre (d : disk) : rres dbstate :=
+    match recover crc dec d with
+    | RErr => RErr
+    | ROk rs => ROk (mkDb (apply_all empty_store rs) tm0 (wopen_pre d))
+    end.
+  Fixpoint run_ops_pre (cfg : wcfg) (st : dbstate) (os : list op) : dbstate * list out :=
+    match os with
+    | [] => (st, [])
+    | o :: r => let '(st1, x) := db_step_pre cfg st o in
+                let '(st2, xs) := run_ops_pre cfg st1 r in (st2, x :: xs)
+    end.
+  Fixpoint run_sessions_pre (cfg : wcfg) (st : dbstate) (ss : list session) : list sobs * rres dbstate :=
+    match ss with
+    | [] => ([], ROk st)
+    | (os, e) :: r =>
+        let '(st1, outs) := run_ops_pre cfg st os in
+        let d := end_disk cfg st1 e in
+        match db_open_pre d with
+        | RErr => ([mkObs outs (db_store st1) d RErr], RErr)
+        | ROk st2 =>
+            let '(obs, fin) := run_sessions_pre cfg st2 r in
             (mkObs outs (db_store st1) d (ROk (db_store st2)) :: obs, fin)
         end
     end.
